@@ -2,6 +2,8 @@ package props
 
 import (
 	"bytes"
+	"context"
+	"errors"
 	"fmt"
 	"math/rand/v2"
 
@@ -328,6 +330,13 @@ func runC01(c *mon.Ctx) {
 		checkRoundTrip(c, "remux", i, hr)
 		c.Add("parsed_units_remultiplexed", int64(n))
 	}
+	// the repository's own remultiplexer, replayed
+	nes := c.Pick(300, 30000)
+	for i := int64(0); i < nes; i++ {
+		if c.Mine("es-split", i) {
+			esSplitCase(c, i, c.Rng("es-split", i))
+		}
+	}
 	// first-packet adaptation fields with the discontinuity indicator (a new time base announced with its first PCR): a legal field
 	// like the others, so every unit has to come back. The demuxer reacts to the indicator by discarding what it holds for the PID,
 	// which is the complete unit written just before — known finding, see KNOWN_FINDINGS.txt; anything else that goes missing
@@ -525,4 +534,159 @@ func diCase(c *mon.Ctx, idx int64, r *rand.Rand) {
 	if known {
 		c.Violate("C01/unit-before-discontinuity-indicator-dropped", "di", idx, "the unit written before a WriteData whose first-packet adaptation field carries the discontinuity indicator is not delivered", data)
 	}
+}
+
+// esSplitCase replays cmd/astits-es-split on a stream a random Muxer history produced: a Demuxer over a bufio.Reader with detected
+// packet size; once all PMTs of the PAT are known, one Muxer per elementary stream, created with the parsed PMT entry and its own
+// PID as PCR PID; every PES handed to its Muxer with the first packet's parsed adaptation field (HasPCR cleared, then set again
+// with the unit's PTS or DTS, exactly as the tool does) and the parsed PES. Every such Muxer's output must be whole conformant
+// packets that demultiplex, without an error, into exactly the units it was given.
+func esSplitCase(c *mon.Ctx, idx int64, r *rand.Rand) {
+	ops, period := RandomHistory(r, HistOpts{MaxOps: 50, AutoPIDs: true, BigAF: idx%3 == 0, RichHeaders: true, LongPayloads: idx%5 == 0, ManyPackets: idx%4 == 0})
+	src := runHistory(ops, period).Out
+	if len(src) < 3*188 {
+		return
+	}
+	cfg := DemuxCfg{Reader: "bufio", API: "data"}
+	dmx, _ := NewDemuxerFor(src, cfg)
+	type sink struct {
+		m    *astits.Muxer
+		out  *bytes.Buffer
+		sent []*astits.PESData
+	}
+	muxers := map[uint16]*sink{}
+	var pat *astits.PATData
+	pmts := map[uint16]*astits.PMTData{}
+	gotAll := false
+	data := map[string]any{"source": mon.Hex(src, 1200)}
+	for calls := 0; calls < len(src)/188+64; calls++ {
+		var d *astits.DemuxerData
+		var err error
+		if p, v, st := mon.Guarded(func() { d, err = dmx.NextData() }); p {
+			c.Violate("C01/es-split/panic", "es-split", idx, fmt.Sprintf("%v\n%s", v, st), data)
+			return
+		}
+		if err != nil {
+			if errors.Is(err, astits.ErrNoMorePackets) {
+				break
+			}
+			c.Violate("C01/es-split/demux-error", "es-split", idx, err.Error(), data)
+			return
+		}
+		switch {
+		case d.PAT != nil:
+			pat, gotAll = d.PAT, false
+			continue
+		case d.PMT != nil:
+			pmts[d.PMT.ProgramNumber] = d.PMT
+			gotAll = pat != nil
+			if pat != nil {
+				for _, p := range pat.Programs {
+					if _, ok := pmts[p.ProgramNumber]; !ok {
+						gotAll = false
+					}
+				}
+			}
+			if !gotAll {
+				continue
+			}
+			for _, pmt := range pmts {
+				for _, es := range pmt.ElementaryStreams {
+					if _, ok := muxers[es.ElementaryPID]; ok {
+						continue
+					}
+					out := &bytes.Buffer{}
+					m := astits.NewMuxer(context.Background(), out)
+					if err := m.AddElementaryStream(*es); err != nil {
+						c.Violate("C01/es-split/add-failed", "es-split", idx, fmt.Sprintf("parsed PMT entry for pid %#x refused: %v", es.ElementaryPID, err), data)
+						return
+					}
+					m.SetPCRPID(es.ElementaryPID)
+					muxers[es.ElementaryPID] = &sink{m: m, out: out}
+				}
+			}
+			continue
+		}
+		if !gotAll || d.PES == nil || d.PES.Header.OptionalHeader == nil {
+			continue
+		}
+		pid := d.FirstPacket.Header.PID
+		sk := muxers[pid]
+		if sk == nil {
+			continue
+		}
+		af := d.FirstPacket.AdaptationField
+		if af != nil && af.HasPCR {
+			af.HasPCR = false
+		}
+		var pcr *astits.ClockReference
+		switch d.PES.Header.OptionalHeader.PTSDTSIndicator {
+		case astits.PTSDTSIndicatorOnlyPTS:
+			pcr = d.PES.Header.OptionalHeader.PTS
+		case astits.PTSDTSIndicatorBothPresent:
+			pcr = d.PES.Header.OptionalHeader.DTS
+		}
+		if pcr != nil {
+			if af == nil {
+				af = &astits.PacketAdaptationField{}
+			}
+			af.HasPCR, af.PCR = true, pcr
+		}
+		keep := mon.Clone(d.PES)
+		var werr error
+		if p, v, st := mon.Guarded(func() { _, werr = sk.m.WriteData(&astits.MuxerData{PID: pid, AdaptationField: af, PES: d.PES}) }); p {
+			c.Violate("C01/es-split/panic", "es-split", idx, fmt.Sprintf("%v\n%s", v, st), data)
+			return
+		}
+		if werr != nil {
+			c.Violate("C01/es-split/write-failed", "es-split", idx, fmt.Sprintf("pid %#x: WriteData of a parsed unit failed: %v", pid, werr), data)
+			return
+		}
+		sk.sent = append(sk.sent, keep)
+	}
+	for pid, sk := range muxers {
+		out := sk.out.Bytes()
+		if len(sk.sent) == 0 {
+			continue
+		}
+		log, tail := refts.DecodeLog(out)
+		if tail != 0 {
+			c.Violate("C01/es-split/partial-packet", "es-split", idx, fmt.Sprintf("pid %#x: %d trailing bytes", pid, tail), data)
+			return
+		}
+		for k, e := range log.Errs {
+			if e != nil {
+				c.Violate("C01/es-split/nonconformant-packet", "es-split", idx, fmt.Sprintf("pid %#x packet %d: %v", pid, k, e), data)
+				return
+			}
+		}
+		run := RunDemux(out, baseCfg("data"))
+		if run.Panic != "" || len(run.Errors()) > 0 {
+			c.Violate("C01/es-split/output-demux-error", "es-split", idx, fmt.Sprintf("pid %#x: %s %v", pid, run.Panic, run.Errors()), data)
+			return
+		}
+		var got []*astits.PESData
+		for _, d := range run.Datas() {
+			if d.PID == pid && d.PES != nil {
+				got = append(got, d.PES)
+			}
+		}
+		if len(got) != len(sk.sent) {
+			c.Violate("C01/es-split/pes-count", "es-split", idx, fmt.Sprintf("pid %#x: %d units written, %d come back", pid, len(sk.sent), len(got)), data)
+			return
+		}
+		for k := range got {
+			if !bytes.Equal(got[k].Data, sk.sent[k].Data) {
+				c.Violate("C01/es-split/pes-differs:.Data", "es-split", idx, fmt.Sprintf("pid %#x unit %d: payload differs (%d vs %d bytes)", pid, k, len(got[k].Data), len(sk.sent[k].Data)), data)
+				return
+			}
+			g, w := got[k].Header, sk.sent[k].Header
+			if g.StreamID != w.StreamID || mon.Diff(g.OptionalHeader.PTS, w.OptionalHeader.PTS, nil) != "" || mon.Diff(g.OptionalHeader.DTS, w.OptionalHeader.DTS, nil) != "" {
+				c.Violate("C01/es-split/pes-differs:.Header", "es-split", idx, fmt.Sprintf("pid %#x unit %d: stream id %#x/%#x, timestamps differ", pid, k, g.StreamID, w.StreamID), data)
+				return
+			}
+		}
+		c.Add("units_split_per_elementary_stream_and_compared", int64(len(got)))
+	}
+	c.Case(mon.HashBytes("es-split", src), len(muxers) > 0)
 }
